@@ -8,6 +8,15 @@
 //! turns a hang into a "deadlock" observation; afterwards the evaluator must still answer
 //! (no poisoned lock).  The driver reports the checks of the regenerated synchronisation
 //! table and runs the interleaving semantics on the abstract lock shape of every round.
+//!
+//! The generated model also has invocables that ACCUMULATE their result (boxed relation — as decision logic and as
+//! the logic of a knowledge model —, boxed contexts, boxed invocation, long lists built by for / filter / sort /
+//! quantifiers / list built-ins, collecting decision tables); half of the rounds put all threads into these
+//! constructs (modes `accumulating-mixed`, `one-accumulating-construct`: the same construct, different inputs).
+//!
+//! Family `server-scope` (server/src/server.rs is an anchor of C20): over HTTP against the real service, sequences
+//! rejected body -> well-formed body over entry names related by the additional symbols (- + * / .), on every worker
+//! thread, from one client and from several clients at once; every answer is judged by the value written in the body.
 
 use crate::model::Model;
 use crate::report::{Kind, Report};
@@ -234,6 +243,126 @@ fn generate_model(rng: &mut Rng) -> (String, Vec<Invocable>) {
   let mut sl = vec![0, 3];
   sl.extend(l.iter().skip(1));
   inv.push(Invocable { name: "Svc1".into(), kind: "service", locks: sl });
+  // ---- constructs that ACCUMULATE a result while they evaluate (rows of a boxed relation, entries of a boxed
+  // context, bindings of a boxed invocation, the items a for loop / filter / sort / quantifier / collect table
+  // gathers): every one of them depends on the call's input in every part, so that a buffer shared between two
+  // calls (rows of another call, rows missing, items in another order) shows in the result
+  let lit = |text: &str| format!("<literalExpression><text>{}</text></literalExpression>", xml_escape(text));
+  let boxed = |name: &str, reqs: &[(&str, &str)], body: &str| -> String {
+    let reqs: String = reqs
+      .iter()
+      .map(|(kind, href)| match *kind {
+        "input" => format!("<informationRequirement><requiredInput href=\"#{}\"/></informationRequirement>", href),
+        "decision" => format!("<informationRequirement><requiredDecision href=\"#{}\"/></informationRequirement>", href),
+        _ => format!("<knowledgeRequirement><requiredKnowledge href=\"#{}\"/></knowledgeRequirement>", href),
+      })
+      .collect();
+    format!("<decision name=\"{n}\" id=\"_{n}\"><variable name=\"{n}\"/>{reqs}{body}</decision>\n", n = name, reqs = reqs, body = body)
+  };
+  let relation = |rows: u64, rng: &mut Rng, var: &str| -> String {
+    let mut r = String::from("<relation><column name=\"idx\"/><column name=\"val\"/><column name=\"tag\"/>");
+    for i in 0..rows {
+      r.push_str(&format!(
+        "<row>{}{}{}</row>",
+        lit(&format!("{} * 1000 + {}", var, i)),
+        lit(&format!("sum(for k in 1..{} return k * {}) + {}", 5 + rng.below(20), var, i)),
+        lit(&format!("string({}) + \"-r{}\"", var, i))
+      ));
+    }
+    r.push_str("</relation>");
+    r
+  };
+  let acc_locks = dec_locks.clone();
+  // boxed relation as the logic of a decision
+  let rel_rows = 8 + rng.below(10);
+  x.push_str(&boxed("Rel1", &[("input", "_n")], &relation(rel_rows, rng, "n")));
+  inv.push(Invocable { name: "Rel1".into(), kind: "accumulating", locks: acc_locks.clone() });
+  // boxed relation as the logic of a knowledge model, reached through a decision (and filtered there)
+  x.push_str(&format!(
+    "<businessKnowledgeModel name=\"Bkm2\" id=\"_Bkm2\"><variable name=\"Bkm2\"/><encapsulatedLogic><formalParameter name=\"p\"/>{}</encapsulatedLogic></businessKnowledgeModel>\n",
+    relation(6 + rng.below(8), rng, "p")
+  ));
+  x.push_str(&decision("Rel2", "", &[("input", "_n"), ("knowledge", "_Bkm2")], "{all: Bkm2(n), some: Bkm2(n + 1)[idx > (n + 1) * 1000 + 2], n: count(Bkm2(n))}"));
+  inv.push(Invocable { name: "Rel2".into(), kind: "accumulating", locks: vec![0, 2, 3, 1, 4, 5, 2] });
+  // boxed context with many entries, each using the one before; with and without a result entry
+  let entries = 10 + rng.below(10);
+  let mut ctx = String::from("<context>");
+  for i in 0..entries {
+    let text = if i == 0 { format!("n + {}", rng.below(9)) } else { format!("e{} * 2 + n + {}", i - 1, i) };
+    ctx.push_str(&format!("<contextEntry><variable name=\"e{}\"/>{}</contextEntry>", i, lit(&text)));
+  }
+  x.push_str(&boxed("Ctx1", &[("input", "_n")], &format!("{}</context>", ctx)));
+  inv.push(Invocable { name: "Ctx1".into(), kind: "accumulating", locks: acc_locks.clone() });
+  let all: Vec<String> = (0..entries).map(|i| format!("e{}", i)).collect();
+  x.push_str(&boxed("Ctx2", &[("input", "_n")], &format!("{}<contextEntry>{}</contextEntry></context>", ctx, lit(&format!("[{}]", all.join(", "))))));
+  inv.push(Invocable { name: "Ctx2".into(), kind: "accumulating", locks: acc_locks.clone() });
+  // boxed invocation of a knowledge model with bindings
+  x.push_str(&boxed(
+    "Inv1",
+    &[("input", "_n"), ("knowledge", "_Bkm1")],
+    &format!("<invocation>{}<binding><parameter name=\"p\"/>{}</binding><binding><parameter name=\"q\"/>{}</binding></invocation>", lit("Bkm1"), lit("n + 1"), lit(&format!("floor(n) + {}", 1 + rng.below(5)))),
+  ));
+  inv.push(Invocable { name: "Inv1".into(), kind: "accumulating", locks: vec![0, 2, 3, 1, 4, 5, 2] });
+  // a literal list with many items, for loops building long lists, a filter, a sort, quantifiers and the list built-ins
+  let items: Vec<String> = (0..(20 + rng.below(30))).map(|i| format!("n + {}", i)).collect();
+  x.push_str(&decision("Lst1", "", &[("input", "_n")], &format!("[{}]", items.join(", "))));
+  inv.push(Invocable { name: "Lst1".into(), kind: "accumulating", locks: acc_locks.clone() });
+  x.push_str(&decision(
+    "For1",
+    "",
+    &[("input", "_n")],
+    &format!("[(for i in 1..{a} return i * n + {c}), (for i in 1..{b}, j in 1..{b} return i * j + n), (for i in [n, n + 1, n + 2], j in [1, 2] return [i, j])]", a = 100 + rng.below(100), b = 6 + rng.below(8), c = rng.below(9)),
+  ));
+  inv.push(Invocable { name: "For1".into(), kind: "accumulating", locks: acc_locks.clone() });
+  x.push_str(&decision(
+    "Flt1",
+    "",
+    &[("input", "_n")],
+    &format!("[(for i in 1..{a} return i + n)[item > n + {h}], (for i in 1..{b} return {{a: i + n, b: i}})[b > {k}], (for i in 1..{b} return i + n)[{k}]]", a = 100 + rng.below(100), h = 30 + rng.below(40), b = 20 + rng.below(20), k = 3 + rng.below(9)),
+  ));
+  inv.push(Invocable { name: "Flt1".into(), kind: "accumulating", locks: acc_locks.clone() });
+  x.push_str(&decision(
+    "Srt1",
+    "",
+    &[("input", "_n")],
+    &format!("[sort((for i in 1..{a} return modulo(i * 37 + floor(n), 101)), function(a, b) a < b), sort((for i in 1..{b} return modulo(i * 53 + floor(n), 97)), function(a, b) a > b)]", a = 40 + rng.below(40), b = 20 + rng.below(20)),
+  ));
+  inv.push(Invocable { name: "Srt1".into(), kind: "accumulating", locks: acc_locks.clone() });
+  x.push_str(&decision(
+    "Acc1",
+    "",
+    &[("input", "_n")],
+    &format!(
+      "[(some i in (for k in 1..{a} return k) satisfies i * n > {t}), (every i in (for k in 1..{a} return k + n) satisfies i > n), distinct values((for i in 1..{a} return modulo(i + floor(n), 7))), flatten((for i in 1..{b} return [i, [n, [i + n]]])), append([n], n + 1, n + 2), concatenate([n], [1, 2], [n + 3]), union([n, 1], [1, 2, n]), insert before((for i in 1..{b} return i + n), 3, n), remove((for i in 1..{b} return i + n), 2), reverse((for i in 1..{b} return i * n)), index of((for i in 1..{b} return modulo(i + floor(n), 3)), 1), sublist((for i in 1..{b} return i + n), 2, 5), get entries({{a: n, b: n + 1, c: n + 2}}), split(string(n) + \",\" + string(n + 1) + \",x\", \",\")]",
+      a = 40 + rng.below(60),
+      b = 8 + rng.below(12),
+      t = 500 + rng.below(2000)
+    ),
+  ));
+  inv.push(Invocable { name: "Acc1".into(), kind: "accumulating", locks: acc_locks.clone() });
+  // tables that collect: a list of outputs, and a list of output contexts in rule order
+  let mut rules3 = String::new();
+  let mut rules4 = String::new();
+  for i in 0..14u64 {
+    rules3.push_str(&format!("<rule id=\"_d{}\"><inputEntry><text>&gt;= {}</text></inputEntry><outputEntry><text>n + {}</text></outputEntry></rule>", i, i * (1 + rng.below(7)), i));
+    rules4.push_str(&format!(
+      "<rule id=\"_e{}\"><inputEntry><text>&gt;= {}</text></inputEntry><outputEntry><text>n * {}</text></outputEntry><outputEntry><text>\"o{}\"</text></outputEntry></rule>",
+      i,
+      i * (1 + rng.below(7)),
+      i + 1,
+      i
+    ));
+  }
+  x.push_str(&format!(
+    "<decision name=\"Col1\" id=\"_Col1\"><variable name=\"Col1\"/><informationRequirement><requiredInput href=\"#_n\"/></informationRequirement><decisionTable hitPolicy=\"COLLECT\" outputLabel=\"Col1\"><input id=\"_l1\" label=\"n\"><inputExpression typeRef=\"number\"><text>n</text></inputExpression></input><output id=\"_m1\" name=\"Col1\"/>{}</decisionTable></decision>\n",
+    rules3
+  ));
+  inv.push(Invocable { name: "Col1".into(), kind: "accumulating", locks: acc_locks.clone() });
+  x.push_str(&format!(
+    "<decision name=\"Col2\" id=\"_Col2\"><variable name=\"Col2\"/><informationRequirement><requiredInput href=\"#_n\"/></informationRequirement><decisionTable hitPolicy=\"RULE ORDER\" outputLabel=\"Col2\"><input id=\"_l2\" label=\"n\"><inputExpression typeRef=\"number\"><text>n</text></inputExpression></input><output id=\"_m2\" name=\"amount\"/><output id=\"_m3\" name=\"tag\"/>{}</decisionTable></decision>\n",
+    rules4
+  ));
+  inv.push(Invocable { name: "Col2".into(), kind: "accumulating", locks: acc_locks.clone() });
   let xml = format!(
     "<?xml version=\"1.0\" encoding=\"UTF-8\"?>\n<definitions namespace=\"https://verif/c20\" name=\"c20\" id=\"_c20\" xmlns=\"https://www.omg.org/spec/DMN/20191111/MODEL/\">\n{}</definitions>",
     x
@@ -280,7 +409,7 @@ enum Msg {
 pub fn run(cfg: &Cfg) -> Report {
   let mut rep = Report::new(
     "C20",
-    "rounds: one shared Arc<ModelEvaluator>, 2..16 threads, each a randomly ordered sequence of evaluate_invocable calls over numeric / integer-rounding / tie-computing / temporal / regular-expression / decision-table / chained / knowledge-model / decision-service invocables with generated inputs; randomised barriers, yields and spins. Non-trivial: at least two threads and at least two kinds of invocable in the round; distinct by (threads, call sequence) description.",
+    "rounds: one shared Arc<ModelEvaluator>, 2..16 threads, each a randomly ordered sequence of evaluate_invocable calls over numeric / integer-rounding / tie-computing / temporal / regular-expression / decision-table / chained / knowledge-model / decision-service / result-accumulating invocables with generated inputs; randomised barriers, yields and spins. Non-trivial: at least two threads and at least two kinds of invocable in the round, or at least two different calls of accumulating constructs (boxed relation / context / invocation, long lists built by for / filter / sort / quantifiers / list built-ins, collecting tables); distinct by (threads, call sequence) description.",
   );
   let mut rng = Rng::new(cfg.seed);
   let mut model = Model::start(&cfg.driver);
@@ -328,7 +457,9 @@ pub fn run(cfg: &Cfg) -> Report {
     invocables.push(Invocable { name: "Boom".into(), kind: "panicking", locks: vec![0, 1] });
     // the table of calls with their sequential results
     let mut calls: Vec<Call> = vec![];
-    let n_calls = 40 + rng.below(40) as usize;
+    let n_calls = 60 + rng.below(40) as usize;
+    let accumulating: Vec<usize> = invocables.iter().enumerate().filter(|(_, i)| i.kind == "accumulating").map(|(k, _)| k).collect();
+    let mut next_acc = 0usize;
     let gap1 = invocables.iter().position(|i| i.name == "Gap1");
     let int1 = invocables.iter().position(|i| i.name == "Int1");
     let tie1 = invocables.iter().position(|i| i.name == "Tie1");
@@ -344,6 +475,11 @@ pub fn run(cfg: &Cfg) -> Report {
       }
       if let (true, Some(g)) = (ci % 10 == 5, tie1) {
         invocable = g;
+      }
+      // ... and calls of every accumulating construct, each with several different inputs
+      if matches!(ci % 10, 2 | 4 | 6 | 8 | 9) && !accumulating.is_empty() {
+        invocable = accumulating[next_acc % accumulating.len()];
+        next_acc += 1;
       }
       if let (true, Some(g)) = (ci % 10 == 3, gap1) {
         invocable = g;
@@ -390,6 +526,16 @@ pub fn run(cfg: &Cfg) -> Report {
     }
     let int_calls: Vec<usize> = calls.iter().enumerate().filter(|(_, c)| invocables[c.invocable].kind == "integral").map(|(i, _)| i).collect();
     let tie_calls: Vec<usize> = calls.iter().enumerate().filter(|(_, c)| invocables[c.invocable].kind == "tie").map(|(i, _)| i).collect();
+    let acc_calls: Vec<usize> = calls.iter().enumerate().filter(|(_, c)| invocables[c.invocable].kind == "accumulating").map(|(i, _)| i).collect();
+    // the calls of each accumulating invocable (same invocable, different inputs)
+    let mut acc_groups: Vec<Vec<usize>> = vec![];
+    for &k in &accumulating {
+      let g: Vec<usize> = calls.iter().enumerate().filter(|(_, c)| c.invocable == k).map(|(i, _)| i).collect();
+      if g.len() >= 2 {
+        acc_groups.push(g);
+      }
+    }
+    rep.hit(&format!("accumulating-invocables-with-two-or-more-inputs:{}", acc_groups.len()));
     let calls = Arc::new(calls);
 
     for _round in 0..rounds_per_model {
@@ -405,13 +551,21 @@ pub fn run(cfg: &Cfg) -> Report {
       let mut kinds = std::collections::BTreeSet::new();
       // sometimes every thread hammers the same call, sometimes all differ
       // (mode 4: half of the threads round to integers while the other half computes ties)
-      let mode = if int_calls.is_empty() || tie_calls.is_empty() { rng.below(4) } else { rng.below(5) };
+      // (mode 5: every thread evaluates accumulating constructs; modes 6, 7: all threads are inside the SAME
+      // accumulating construct, each with inputs of its own)
+      let mut mode = if int_calls.is_empty() || tie_calls.is_empty() { rng.below(4) } else { rng.below(5) };
+      if !acc_groups.is_empty() && rng.chance(1, 2) {
+        mode = 5 + rng.below(3);
+      }
       let hot = rng.below(calls.len() as u64) as usize;
+      let group: &Vec<usize> = if acc_groups.is_empty() { &acc_calls } else { &acc_groups[(_round as usize + rng.below(2) as usize * 7) % acc_groups.len()] };
       for ti in 0..threads {
         let k = 1 + rng.below(if thorough { 40 } else { 24 }) as usize;
         let seq: Vec<usize> = (0..k)
           .map(|_| match mode {
             4 => *rng.pick(if ti % 2 == 0 { &int_calls } else { &tie_calls }),
+            5 => *rng.pick(&acc_calls),
+            6 | 7 => *rng.pick(group),
             0 => hot,
             1 => {
               if rng.chance(1, 2) {
@@ -531,9 +685,10 @@ pub fn run(cfg: &Cfg) -> Report {
         let _ = h.join();
       }
       rounds_done += 1;
-      rep.case(&key, threads >= 2 && kinds.len() >= 2);
+      let distinct_acc_calls: std::collections::BTreeSet<usize> = plan.iter().flatten().copied().filter(|&c| invocables[calls[c].invocable].kind == "accumulating").collect();
+      rep.case(&key, threads >= 2 && (kinds.len() >= 2 || distinct_acc_calls.len() >= 2));
       rep.hit(&format!("threads:{}", if threads <= 4 { "2-4" } else if threads <= 8 { "5-8" } else { "9-16" }));
-      rep.hit(&format!("mode:{}", ["same-call", "half-hot", "mixed", "mixed", "integral-vs-tie"][mode as usize]));
+      rep.hit(&format!("mode:{}", ["same-call", "half-hot", "mixed", "mixed", "integral-vs-tie", "accumulating-mixed", "one-accumulating-construct", "one-accumulating-construct"][mode as usize]));
       for (ti, out) in &results {
         for (c, r) in out {
           total_calls += 1;
@@ -619,6 +774,9 @@ pub fn run(cfg: &Cfg) -> Report {
       }
     }
   }
+  if !hung {
+    server_scope(cfg, &mut rep, &mut rng);
+  }
   rep.extra.insert("rounds".into(), json!(rounds_done));
   rep.extra.insert("concurrent_calls".into(), json!(total_calls));
   rep.notes.push("oracle: the sequential run of the same call on the same evaluator (evaluated twice before the threads start, and once more after all rounds)".into());
@@ -634,4 +792,205 @@ pub fn run(cfg: &Cfg) -> Report {
     std::process::exit(0);
   }
   rep
+}
+
+// ------------------------------------------------------------------------------------------------
+// server-scope: an evaluation over HTTP never observes the entry names of another request
+// ------------------------------------------------------------------------------------------------
+
+/// One case of the family: a request body the service rejects, whose entry names combine two names with an additional
+/// symbol, and a well-formed body over the same two names whose answer is WRITTEN IN THE BODY (the specification:
+/// `Out` = the value of `Profit`, an arithmetic expression over numbers given in the same body).
+struct ScopeCase {
+  rejected: String,
+  good: String,
+  expected: i64,
+}
+
+fn scope_cases(rng: &mut Rng, thorough: bool) -> Vec<ScopeCase> {
+  const NAMES: [(&str, &str); 8] = [
+    ("Income", "Costs"),
+    ("Total Income", "Fixed Costs"),
+    ("a", "b"),
+    ("Net", "Tax Rate"),
+    ("x1", "x2"),
+    ("Gross", "Net"),
+    ("Order size", "Discount"),
+    ("é", "ß"),
+  ];
+  let mut out = vec![];
+  // the reported witness first
+  out.push(ScopeCase { rejected: "{ Income - Costs: 100, Rate: }".into(), good: "{ Income: 500, Costs: 200, Profit: Income - Costs }".into(), expected: 300 });
+  let n = if thorough { 600 } else { 44 };
+  for i in 0..n {
+    let (a, b) = NAMES[(i + rng.below(2) as usize) % NAMES.len()];
+    let sym = ["-", "+", "*", "/", "."][i % 5];
+    let (va, vb) = (2 + rng.below(40) as i64, 1 + rng.below(9) as i64);
+    let joined = match rng.below(3) {
+      0 => format!("{} {} {}", a, sym, b),
+      1 => format!("{}{}{}", a, sym, b),
+      _ => format!("{}  {}  {}", a, sym, b),
+    };
+    let three = format!("{} {} {} + {}", a, sym, b, a);
+    // the ways a body over such an entry name is rejected: a missing value, a missing brace, a stray token, inside a
+    // nested context, inside a list, after a complete context
+    let rejected = match (i / 5) % 8 {
+      0 => format!("{{ {}: 100, Rate: }}", joined),
+      1 => format!("{{ {}: 100, Rate: 1", joined),
+      2 => format!("{{ {}: 100, ] }}", joined),
+      3 => format!("{{ Outer: {{ {}: 100, Rate: }} }}", joined),
+      4 => format!("{{ Rows: [ {{ {}: 100, Rate: 1 }}, {{ {}: 2, ", joined, joined),
+      5 => format!("{{ {}: 100 }} }}", joined),
+      6 => format!("{{ {}: 1, {}: 2, Rate: }}", joined, three),
+      _ => format!("{{ {}: 100, Profit: {} ", joined, joined),
+    };
+    let (good, expected) = match sym {
+      "-" => (format!("{{ {}: {}, {}: {}, Profit: {} - {} }}", a, va, b, vb, a, b), va - vb),
+      "+" => (format!("{{ {}: {}, {}: {}, Profit: {}+{} }}", a, va, b, vb, a, b), va + vb),
+      "*" => (format!("{{ {}: {}, {}: {}, Profit: {} * {} }}", a, va, b, vb, a, b), va * vb),
+      "/" => (format!("{{ {}: {}, {}: {}, Profit: {} / {} }}", a, va * vb, b, vb, a, b), va),
+      _ => (format!("{{ {}: {{ {}: {} }}, Profit: {}.{} }}", a, b, va, a, b), va),
+    };
+    out.push(ScopeCase { rejected, good, expected });
+  }
+  out
+}
+
+/// The number in `{"data": N}`, or the text of the answer.
+fn data_number(body: &[u8]) -> Result<f64, String> {
+  let text = String::from_utf8_lossy(body).to_string();
+  match serde_json::from_str::<serde_json::Value>(&text) {
+    Ok(v) => match v.get("data").and_then(|d| d.as_f64()) {
+      Some(n) => Ok(n),
+      None => Err(text.chars().take(200).collect()),
+    },
+    Err(_) => Err(text.chars().take(200).collect()),
+  }
+}
+
+fn server_scope(cfg: &Cfg, rep: &mut Report, rng: &mut Rng) {
+  use crate::c18::{http, Server};
+  const SIG: &str = "an evaluate request answered after a rejected request body does not return the value written in its own body";
+  let thorough = cfg.tier == "thorough";
+  let mut server = match Server::start() {
+    Ok(s) => s,
+    Err(e) => {
+      rep.disagree(Kind::ImplVsSpec, "server-scope", "the service does not start on a loopback port", "start_server(127.0.0.1, free port)", &e, "a listening service");
+      return;
+    }
+  };
+  let port = server.port;
+  let xml = "<?xml version=\"1.0\" encoding=\"UTF-8\"?>\n<definitions namespace=\"https://verif/c20scope\" name=\"c20scope\" id=\"_c20scope\" xmlns=\"https://www.omg.org/spec/DMN/20191111/MODEL/\">\n<inputData name=\"Profit\" id=\"_Profit\"><variable name=\"Profit\" typeRef=\"number\"/></inputData>\n<decision name=\"Out\" id=\"_Out\"><variable name=\"Out\" typeRef=\"number\"/><informationRequirement><requiredInput href=\"#_Profit\"/></informationRequirement><literalExpression><text>Profit</text></literalExpression></decision>\n</definitions>";
+  let add = json!({"content": base64::encode(xml)}).to_string();
+  for (path, body) in [("/definitions/clear", String::new()), ("/definitions/add", add), ("/definitions/deploy", String::new())] {
+    match http(port, "POST", path, Some("application/json"), body.as_bytes()) {
+      Ok(a) if a.status == 200 && !String::from_utf8_lossy(&a.body).contains("\"errors\"") => {}
+      other => {
+        let got = match other {
+          Ok(a) => format!("{} {}", a.status, String::from_utf8_lossy(&a.body).chars().take(200).collect::<String>()),
+          Err(e) => e,
+        };
+        rep.disagree(Kind::ImplVsSpec, "server-scope", "the model of the family server-scope is not deployed", &format!("POST {}", path), &got, "{\"data\":...}");
+        return;
+      }
+    }
+  }
+  let eval = |body: &str| http(port, "POST", "/evaluate/c20scope/Out", Some("text/plain"), body.as_bytes());
+  // the service has one worker thread per CPU and hands connections to them in turn: so many repetitions reach all
+  let workers = std::thread::available_parallelism().map(|n| n.get()).unwrap_or(8).max(4);
+  let reps = workers + 2;
+  let cases = scope_cases(rng, thorough);
+  let mut judged = 0u64;
+  let mut judge = |rep: &mut Report, phase: &str, history: &str, c: &ScopeCase, answer: Result<crate::c18::HttpAnswer, String>| {
+    judged += 1;
+    let got = match answer {
+      Ok(a) => match data_number(&a.body) {
+        Ok(n) if n == c.expected as f64 => {
+          rep.hit(&format!("server-scope:{}:answer-as-written", phase));
+          return;
+        }
+        Ok(n) => format!("{{\"data\":{}}}", n),
+        Err(text) => text,
+      },
+      Err(e) => format!("no answer: {}", e),
+    };
+    rep.hit(&format!("server-scope:{}:other-answer", phase));
+    rep.disagree(
+      Kind::ImplVsSpec,
+      "server-scope",
+      SIG,
+      &format!("{} ;; then POST /evaluate/c20scope/Out {}   [model: decision Out = Profit, input data Profit]", history, c.good),
+      &got,
+      &format!("{{\"data\":{}}}", c.expected),
+    );
+  };
+  // phase 0: every well-formed body before anything was rejected (the specification holds for the bodies as such)
+  for c in &cases {
+    rep.case(&format!("server-scope|fresh|{}", c.good), true);
+    let a = eval(&c.good);
+    judge(rep, "fresh", "no request before", c, a);
+  }
+  // phase 1: one client; the rejected body on every worker thread, then the well-formed body on every worker thread
+  for c in &cases {
+    rep.case(&format!("server-scope|sequence|{}|{}", c.rejected, c.good), true);
+    let mut rejected_as_expected = 0;
+    for _ in 0..reps {
+      if let Ok(a) = eval(&c.rejected) {
+        if String::from_utf8_lossy(&a.body).contains("\"errors\"") {
+          rejected_as_expected += 1;
+        }
+      }
+    }
+    rep.hit(if rejected_as_expected == reps { "server-scope:rejected-body-is-rejected" } else { "server-scope:rejected-body-is-accepted" });
+    let history = format!("{} x POST /evaluate/c20scope/Out {}", reps, c.rejected);
+    for _ in 0..reps {
+      let a = eval(&c.good);
+      judge(rep, "after-rejected", &history, c, a);
+    }
+  }
+  // phase 2: several clients at once, each sending rejected and well-formed bodies of different cases in random order
+  if !server.alive() {
+    rep.disagree(Kind::ImplVsSpec, "server-scope", "the service stopped", "after the sequences rejected body -> well-formed body", "process ended", "a running service");
+    return;
+  }
+  let clients = 8usize;
+  let per_client = if thorough { 400 } else { 60 };
+  let plans: Vec<Vec<(bool, usize)>> = (0..clients).map(|_| (0..per_client).map(|_| (rng.chance(1, 2), rng.below(cases.len() as u64) as usize)).collect()).collect();
+  let answers: Vec<Vec<(usize, Result<crate::c18::HttpAnswer, String>)>> = std::thread::scope(|sc| {
+    let handles: Vec<_> = plans
+      .iter()
+      .map(|plan| {
+        let cases = &cases;
+        sc.spawn(move || {
+          let mut out = vec![];
+          for &(good, ci) in plan {
+            let c = &cases[ci];
+            let a = http(port, "POST", "/evaluate/c20scope/Out", Some("text/plain"), if good { c.good.as_bytes() } else { c.rejected.as_bytes() });
+            if good {
+              out.push((ci, a));
+            }
+          }
+          out
+        })
+      })
+      .collect();
+    handles.into_iter().map(|h| h.join().unwrap_or_default()).collect()
+  });
+  rep.case(&format!("server-scope|concurrent clients|{:?}", plans), true);
+  for (k, out) in answers.into_iter().enumerate() {
+    for (ci, a) in out {
+      let c = &cases[ci];
+      judge(rep, "concurrent-clients", &format!("{} clients at once, each sending rejected and well-formed bodies of the cases in random order (client {}); rejected body of this case: {}", clients, k, c.rejected), c, a);
+    }
+  }
+  // phase 3: when everything has been rejected somewhere, every well-formed body once more on every worker thread
+  for c in &cases {
+    for _ in 0..(if thorough { reps } else { 3 }) {
+      let a = eval(&c.good);
+      judge(rep, "final-sweep", &format!("all rejected bodies of the run sent before, among them {}", c.rejected), c, a);
+    }
+  }
+  rep.extra.insert("server_scope_cases".into(), json!(cases.len()));
+  rep.extra.insert("server_scope_answers_judged".into(), json!(judged));
+  rep.extra.insert("server_scope_worker_estimate".into(), json!(workers));
 }
